@@ -74,6 +74,16 @@ def table():
                     setup=[{"op": "postpone", "k": 3}]))
     rows.append(row("await task.done of done task", {"op": "await_done", "task": "h"},
                     helpers=helper, setup=[{"op": "postpone", "k": 3}]))
+    failed = [{"op": "try", "all": True, "body": [
+        {"op": "scope", "label": "SF", "body": [{"op": "sleep", "d": 1}],
+         "children": [{"name": "hf", "ops": [{"op": "raise", "type": "E"}]}]}]}]
+    rows.append(row("await failed task", {"op": "await_task", "task": "hf"}, setup=failed))
+    rows.append(row("await task.done of failed task", {"op": "await_done", "task": "hf"},
+                    setup=failed))
+    cancelled = [{"op": "scope", "label": "SC", "body": [
+        {"op": "cancel", "task": "hc", "token": ["c"]}, {"op": "postpone", "k": 2}],
+        "children": [{"name": "hc", "ops": [{"op": "sleep", "d": 8}]}]}]
+    rows.append(row("await cancelled task", {"op": "await_task", "task": "hc"}, setup=cancelled))
     rows.append(row("await ended scope", {"op": "await_scope", "scope": "S"},
                     setup=[{"op": "scope", "label": "S", "children": [], "body": []}]))
     for cmp, date in ((">=", -1), (">=", 0), ("==", 0), ("<", 5)):
@@ -88,6 +98,13 @@ def table():
     rows.append(row("await (tracked + 1)", {"op": "tr_add", "on": "X", "by": 1}, tracked))
     queue = {"Q": {"kind": "queue"}}
     rows.append(row("Queue.put", {"op": "put", "on": "Q", "v": 1}, queue))
+    rows.append(row("Queue.put with a receiver waiting", {"op": "put", "on": "Q", "v": 1}, queue,
+                    helpers=[{"name": "h", "ops": [{"op": "get", "on": "Q"}]}],
+                    setup=[{"op": "postpone", "k": 3}]))
+    rows.append(row("Channel.put with a consumer waiting", {"op": "put", "on": "C", "v": 1},
+                    {"C": {"kind": "channel"}},
+                    helpers=[{"name": "h", "ops": [{"op": "get", "on": "C"}]}],
+                    setup=[{"op": "postpone", "k": 3}]))
     rows.append(row("Queue get buffered", {"op": "get", "on": "Q"}, queue,
                     setup=[{"op": "put", "on": "Q", "v": 1}]))
     rows.append(row("Queue iteration step buffered", {"op": "iter", "on": "Q", "n": 1}, queue,
